@@ -129,6 +129,7 @@ fn ecm_curve(
 ) -> Option<(u128, u128)> {
     let n = c.n;
     let (_, d1, d2) = stage2_params(b2);
+    #[cfg(yamaquasi_verif)] crate::verif::ev(|| format!("\"op\":\"s2_hdr\",\"m\":\"ecm128\",\"b2\":{},\"b2rep\":{},\"d1\":{},\"d2\":{}", b2 as u64, stage2_params(b2).0 as u64, d1, d2));
     // ECM stage 1
     let start1 = std::time::Instant::now();
     let mut g = c.gen().clone();
@@ -187,6 +188,7 @@ fn ecm_curve(
     let mut bexp = 1;
     assert_eq!(bs[0], 1);
     steps.push(g.clone());
+    #[cfg(yamaquasi_verif)] crate::verif::ev(|| format!("\"op\":\"s2_b\",\"m\":\"ecm128\",\"e\":{}", bs[0]));
     let mut n_bsteps = 1 as usize;
     for &b in &bs[1..] {
         let gap = b - bexp;
@@ -196,6 +198,7 @@ fn ecm_curve(
         }
         bg = c.add(&bg, &gaps[gap as usize / 2 - 1]);
         steps.push(bg.proj());
+        #[cfg(yamaquasi_verif)] crate::verif::ev(|| format!("\"op\":\"s2_b\",\"m\":\"ecm128\",\"e\":{}", b));
         n_bsteps += 1;
         bexp = b;
     }
@@ -207,10 +210,13 @@ fn ecm_curve(
     let dgext = c.ext(&dg);
     let mut gg = dg2.clone();
     steps.push(dg);
+    #[cfg(yamaquasi_verif)] crate::verif::ev(|| format!("\"op\":\"s2_g\",\"m\":\"ecm128\",\"k\":{}", steps.len() - n_bsteps));
     steps.push(dg2.proj());
+    #[cfg(yamaquasi_verif)] crate::verif::ev(|| format!("\"op\":\"s2_g\",\"m\":\"ecm128\",\"k\":{}", steps.len() - n_bsteps));
     for _ in 2..d2 {
         gg = c.add(&gg, &dgext);
         steps.push(gg.proj());
+        #[cfg(yamaquasi_verif)] crate::verif::ev(|| format!("\"op\":\"s2_g\",\"m\":\"ecm128\",\"k\":{}", steps.len() - n_bsteps));
     }
     // Normalize Y coordinates, 4 multiplications per point:
     // replace y[i] by y[i]/z[i] * product(z[j])
@@ -697,5 +703,58 @@ pub mod vhook {
     }
     pub fn m128_mul(n: u128, ninv: u128, x: u128, y: u128) -> u128 {
         M128::mul(n, ninv, M128(x), M128(y)).0
+    }
+
+    // --- curve arithmetic and single-curve routine (points are tuples of raw Montgomery residues)
+
+
+    pub type P3 = (u128, u128, u128);
+    pub type P4 = (u128, u128, u128, u128);
+
+    fn p3(p: &P3) -> super::Point {
+        super::Point(M128(p.0), M128(p.1), M128(p.2))
+    }
+    fn e4(p: &P4) -> super::ExtPoint {
+        super::ExtPoint(M128(p.0), M128(p.1), M128(p.2), M128(p.3))
+    }
+    fn t3(p: super::Point) -> P3 {
+        (p.0 .0, p.1 .0, p.2 .0)
+    }
+    fn t4(p: super::ExtPoint) -> P4 {
+        (p.0 .0, p.1 .0, p.2 .0, p.3 .0)
+    }
+
+    pub fn from_point(n: u128, g: &P3) -> super::Curve {
+        super::Curve::from_point(n, p3(g))
+    }
+    pub fn gen(c: &super::Curve) -> P3 {
+        t3(c.g.clone())
+    }
+    pub fn one(c: &super::Curve) -> u128 {
+        c.one.0
+    }
+    pub fn ext(c: &super::Curve, p: &P3) -> P4 {
+        t4(c.ext(&p3(p)))
+    }
+    pub fn add(c: &super::Curve, p: &P4, q: &P4) -> P4 {
+        t4(c.add(&e4(p), &e4(q)))
+    }
+    pub fn dbladd(c: &super::Curve, p: &P3, q: &P4) -> P3 {
+        t3(c.dbladd(&p3(p), &e4(q)))
+    }
+    pub fn double(c: &super::Curve, p: &P3) -> P3 {
+        t3(c.double(&p3(p)))
+    }
+    pub fn dblext(c: &super::Curve, p: &P3) -> P4 {
+        t4(c.dblext(&p3(p)))
+    }
+    pub fn scalar64_mul(c: &super::Curve, k: u64, p: &P3) -> P3 {
+        t3(c.scalar64_mul(k, &p3(p)))
+    }
+    pub fn is_valid(c: &super::Curve, p: &P4) -> bool {
+        c.is_valid(&e4(p))
+    }
+    pub fn ecm_curve(c: &super::Curve, sb: &crate::ecm::SmoothBase, b2: f64) -> Option<(u128, u128)> {
+        super::ecm_curve(c, sb, b2, crate::Verbosity::Silent)
     }
 }
